@@ -22,7 +22,11 @@ fn ts_infix_from_path(path: &Path, file_spec: &FileSpec) -> String {
         .to_string_lossy()
         .find("rXXXXX")
         .unwrap();
-    String::from_utf8_lossy(&path.to_string_lossy().as_bytes()[idx..idx + 20]).to_string()
+    // files with a shorter name (e.g. number-named ones) have no timestamp infix
+    path.to_string_lossy()
+        .as_bytes()
+        .get(idx..idx + 20)
+        .map_or_else(String::new, |b| String::from_utf8_lossy(b).to_string())
 }
 
 pub(crate) fn timestamp_from_ts_infix(
